@@ -50,7 +50,7 @@ prop("C08", design_ref="DESIGN.md 5 (C08), Corrections",
      level_text="Proved for ALL byte strings: the header/segment paths of every decoder (both JPEG-LS decoders, jpeg/lossless, SV1, baseline up to the first block, the JPEG 2000 main header, tile-part parser and tile assembler, RLE with arbitrary FrameInfo, Huffman Build) never panic and never run out of fuel; the complete JPEG-LS lossless and near-lossless decoders incl. the as-coded Golomb reader are total (C08_jls_*: Ok or Err for any bytes, index-explicit twin = model); the JPEG 2000 packet parser, tag-tree decoders, packet body extraction and all five packet loops are total for any bytes and geometry tables (C08_t2_*); MQ decoder and raw reader never read out of bounds. Searched, not proved: JPEG Huffman entropy loops, T1 passes, HT block decoder, tile decoding glue (about 170000 mutated streams per run in child processes incl. 45 paired-field mutator classes).",
      level_note=COMMON_NOTE + " Child processes with watchdog; a fatal abort counts as failure.")
 prop("C09", design_ref="DESIGN.md 5 (C09), Corrections",
-     level_text="Partial: proved for all byte strings that every modelled parser loop consumes input (fuel = input length suffices) and that every allocation request is bounded by c*S + 2*len + const with S the size declared by the first frame header of the stream (the same walker the oracle uses); RLE allocation <= 15*65535^2+1. Wall time and heap are measured per decode in child processes (10 s, 512 MiB + 64*S); the Go runtime is not modelled.",
+     level_text="Partial: proved for all byte strings that every modelled parser loop consumes input (fuel = input length suffices) and that every allocation request of the modelled paths is bounded by c*S + 2*len + const with S the size declared by the first frame header of the stream (the same walker the oracle uses); RLE allocation <= 15*65535^2+1; the JPEG-LS decoders and the JPEG 2000 packet loops terminate on every input (C08_jls_*, C08_t2_*: fuel from lengths only). CPU time and peak heap of every decode are measured in child processes against calibrated budgets cpu = 1 s + b*S + c*len, heap = 16 MiB + m1*S + m2*len per decoder family (coefficients from the clean envelope of 1.08 M cases, >= 5x / >= 3x headroom; candidates must reproduce in isolation); the Go runtime is not modelled. One known finding (F53: layers x code-blocks amplification in the packet header parser, thorough tier).",
      level_note=COMMON_NOTE)
 prop("C10", design_ref="DESIGN.md 5 (C10), Corrections",
      level_text="Proved over all histories: one output frame per input frame in order for both frame-loop shapes; for a call summary that is self-initialising the output is a function of the arguments only; the hand summaries of jpeg2000.Encoder/Decoder are self-initialising and cover every field write/read the regenerated facts report (re-proved on every run). Per-frame codec functions are abstract (C01-C07). Histories on real objects, input immutability, decoded lengths are searched over all 14 syntaxes. One known finding (F27).",
